@@ -7,6 +7,7 @@ from .. import codec, common
 from . import C13
 
 PROP = "C14"
+THOROUGH_SEEDS = 2        # seeds per thorough run (bin/check)
 
 
 def call_event(si, cmd, obs):
